@@ -678,14 +678,29 @@ int cgio_check_file (const char *filename, int *file_type)
 
 /*---------------------------------------------------------*/
 
+/* largest element count whose size in bytes (16 for X8) fits a cglong_t */
+#define CGIO_MAX_DATA_COUNT ((cglong_t)((~(cgulong_t)0 >> 1) / 16))
+
 int cgio_compute_data_size (const char *data_type,
     int ndims, const cgsize_t *dims, cglong_t *count)
 {
     if (ndims > 0) {
         int i;
         *count = (cglong_t)dims[0];
-        for (i = 1; i < ndims; i++)
+        for (i = 1; i < ndims; i++) {
+            /* dimensions whose product (times the largest element size)
+               is not representable describe no data that can be read */
+            if (*count < 0 || dims[i] < 0 ||
+                (dims[i] > 0 && *count > CGIO_MAX_DATA_COUNT / dims[i])) {
+                *count = 0;
+                return 0;
+            }
             *count *= (cglong_t)dims[i];
+        }
+        if (*count < 0 || *count > CGIO_MAX_DATA_COUNT) {
+            *count = 0;
+            return 0;
+        }
     }
     else {
         *count = 0;
